@@ -257,6 +257,18 @@ func dnsScenarioC18(w *dnsWorld) {
 			if !w.settle(func() bool { return done && !w.pendingWork() && w.fwdInFlight() == 0 }, 6) {
 				break
 			}
+			// every third resolution is followed by a reload that builds a new controller and
+			// replays the cloned cache (derived from the op count, no extra draw); the harness's
+			// knowledge of resolved names lives on through the restored entries
+			if len(w.ops)%3 == 2 {
+				s.Quiesce(func() bool { return true }, 0, 0)
+				w.track.scan()
+				if !w.pendingWork() && w.fwdInFlight() == 0 {
+					w.env("reload", func() { w.reloadClone() })
+					s.RunUntil(func() bool { return w.envTasks == 0 }, 5)
+					s.Probe("dns.c18-clone-restore-reload")
+				}
+			}
 		} else {
 			// a connection with a sniffed value
 			c := dnsConn{mode: mode, dst: dsts[T.Pick(2, 1)], outbound: consts.OutboundIndex(2), name: -1}
